@@ -567,9 +567,13 @@ func (tree *Rtree) nearestNeighbors(k int, p geom.Point, n *node,
 			dists, nearest = insertNearest(k, dists, nearest, dist, e.obj)
 		}
 	} else {
+		// MINMAXDIST pruning is only valid for k == 1; for general k a branch can
+		// be skipped only if it is farther away than the current k-th nearest object.
 		branches, branchDists := sortEntries(p, n.entries)
-		branches = pruneEntries(p, branches, branchDists)
-		for _, e := range branches {
+		for i, e := range branches {
+			if k > 0 && math.Sqrt(branchDists[i]) > dists[k-1] {
+				break // branches are sorted by distance
+			}
 			nearest, dists = tree.nearestNeighbors(k, p, e.child, dists, nearest)
 		}
 	}
